@@ -532,6 +532,10 @@ func (e *Engine) ifaceContract(name string) *Contract {
 	}
 	for _, c := range cs {
 		if c.SpecPkg != nil && c.SpecPkg == e.curT.Fn.Pkg {
+			// `for=<target>`: the assumption is made only while that target (function name or as= label) is verified
+			if f := argVal(c.D, "for"); f != "" && f != e.curT.Fn.Name() && f != argVal(e.curT.D, "as") {
+				continue
+			}
 			return c
 		}
 	}
